@@ -162,3 +162,30 @@ def file_identity_rules(ctx, rid):
                         ["storage::get_file_full_path", "file-type-var", ft])
         else:
             ctx.require(rid, r.kind == "return" and not rt, "%s:%s" % (gp.file, gp.line), "the account file name does not go through the certificate name template", ["storage::get_file_full_path", "account-name"])
+
+
+def durable_write_rule(ctx, rid, file_types):
+    """write_file's success-path traces for the given file types: the file is opened for writing with truncate(true) or create_new(true),
+    never in append mode, the data parameter is written after the open and flushed before success is reported (shared: C02.R1 for every
+    file type, C11 for the account file — a stale tail or an unflushed buffer is an account that does not survive a restart)"""
+    prog = ctx.prog
+    b = prog.async_body(WF)
+    traces = write_file_traces(prog)
+    for (exists, ft), tr in sorted(traces.items()):
+        if ft not in file_types:
+            continue
+        who = "%s file, %s" % (ft, "already exists" if exists else "new")
+        ev = tr["events"]
+        i_open = index_of(ev, lambda e: e[0] in ("oo.open", "create"))
+        if tr["kind"] != "return" or i_open < 0:
+            ctx.fail(rid, "%s:%s" % (b.file, b.line), "write_file's success path could not be evaluated or never opens the file (%s): %s" % (who, tr["kind"]), [WF, "trace", ft, str(exists)])
+            continue
+        if ev[i_open][0] != "create":
+            news = [i for i, e in enumerate(ev[:i_open]) if e[0] == "oo.new"]
+            flags = {e[0][3:]: e[1] for e in ev[(news[-1] if news else 0):i_open] if e[0].startswith("oo.")}
+            ctx.require(rid, flags.get("write") is True and (flags.get("truncate") is True or flags.get("create_new") is True) and flags.get("append") is not True, "%s:%s" % (b.file, b.line),
+                        "%s: opened with write(true) and truncate(true)/create_new(true), not append (%s)" % (who, flags), [WF, "open-flags", ft, str(exists)])
+        i_w = index_of(ev, lambda e: e[0] == "write_all", i_open)
+        ctx.require(rid, i_w > i_open and "DATA" in str(ev[i_w][1]), "%s:%s" % (b.file, b.line), "%s: the data parameter is written after the open" % who, [WF, "write-after-open", ft, str(exists)])
+        i_f = index_of(ev, lambda e: e[0] == "flush", max(i_w, 0))
+        ctx.require(rid, i_w >= 0 and i_f > i_w, "%s:%s" % (b.file, b.line), "%s: the written data is flushed before write_file reports success" % who, [WF, "flushed", ft, str(exists)])
